@@ -46,6 +46,10 @@ func c18Gen(r *rand.Rand, tier string) []spec.Case {
 		if i%5 == 0 || i%5 == 2 {
 			c.Steps = append(c.Steps, "h-accept-undialled")
 		}
+		if c.Proto == "grpcmux" && (i/3)%2 == 1 {
+			// must be the last step: Kill follows while the unblocked listener is held
+			c.Steps = append(c.Steps, "p2h-kill-at-unblock")
+		}
 		c.KeepConns = i%2 == 1
 		c.KillRacesAccepts = c.Proto == "grpc" && i%3 == 1
 		out = append(out, spec.Case{Kind: c.Proto, P: spec.MustJSON(c)})
@@ -83,7 +87,7 @@ func c18Judge(c spec.Case, evs []spec.Event, d *Death) CaseResult {
 		kinds[s] = true
 	}
 	var ks []string
-	for _, k := range []string{"dispense", "call", "h2p", "p2h", "stdio", "p-accept-open", "p-accept-storm", "p-accept-twice", "h-accept-undialled"} {
+	for _, k := range []string{"dispense", "call", "h2p", "p2h", "stdio", "p-accept-open", "p-accept-storm", "p-accept-twice", "h-accept-undialled", "p2h-kill-at-unblock"} {
 		if kinds[k] {
 			ks = append(ks, k)
 		}
@@ -147,7 +151,7 @@ func init() {
 				r.Inconcl = append(r.Inconcl, fmt.Sprintf("too few graceful shutdowns observed: %v", r.Counters))
 			}
 		},
-		Rule:        "cases = seeded histories (0-5 steps) of dispense / calls / brokered accept+dial host->plugin and plugin->host / stdio writes / a brokered listener the plugin accepts and keeps open (custom-runner launches) / a brokered id the plugin announces twice with nobody dialling it / a host-side Accept on an id the plugin never dials, still pending at Kill / plugin code that announces a brokered server every 5 ms from a background worker until shortly after Serve returned, followed by Kill, x protocol (net/rpc, gRPC, gRPC+mux) x TLS (none, AutoMTLS) x launch (Cmd, custom runner with socket dir) x plugin cleanup time; real subprocesses with private sandboxes on both sides, plus in-process test-mode servers (every protocol) cancelled after no host / one reattached host used them; only graceful exits (cleanup marker present) are judged. Monitors: listing of the plugin's sandbox and the host-side temp dir, and a goroutine dump of the host process filtered on go-plugin frames, compared with the count before the case and polled up to 10 s (one case at a time per host process). Class = protocol|TLS|launch|step kinds",
+		Rule:        "cases = seeded histories (0-5 steps) of dispense / calls / brokered accept+dial host->plugin and plugin->host / stdio writes / a brokered listener the plugin accepts and keeps open (custom-runner launches) / a brokered id the plugin announces twice with nobody dialling it / a host-side Accept on an id the plugin never dials, still pending at Kill / (multiplexing) a host-side brokered listener that a knock has just unblocked when Kill arrives (held at a hook point) / plugin code that announces a brokered server every 5 ms from a background worker until shortly after Serve returned, followed by Kill, x protocol (net/rpc, gRPC, gRPC+mux) x TLS (none, AutoMTLS) x launch (Cmd, custom runner with socket dir) x plugin cleanup time; real subprocesses with private sandboxes on both sides, plus in-process test-mode servers (every protocol) cancelled after no host / one reattached host used them; only graceful exits (cleanup marker present) are judged. Monitors: listing of the plugin's sandbox and the host-side temp dir, and a goroutine dump of the host process filtered on go-plugin frames, compared with the count before the case and polled up to 10 s (one case at a time per host process). Class = protocol|TLS|launch|step kinds",
 		Assumptions: []string{"the harness closes connections it dialled; servers started by AcceptAndServe are go-plugin's to stop", "goroutines started by grpc-go for a ClientConn are not go-plugin's"},
 	})
 }
